@@ -76,6 +76,9 @@ type Case struct {
 	Pauses  []Pause       `json:"pauses,omitempty"`
 	Runs    []Run         `json:"runs"`
 	DelFail int           `json:"delFail,omitempty"` // the n-th deletion of a journal record is answered with an error
+	// DelFailMask: bit i set = the (i+1)-th deletion of a journal record (i < 16) is answered with an error, so that an arbitrary subset of
+	// journal records survives their collection
+	DelFailMask uint16 `json:"delFailMask,omitempty"`
 }
 
 func slotOf(i int) uint16 { return hashslot.Slot([]byte(keyPool[i])) }
@@ -172,8 +175,11 @@ func genCase(t *rapid.T) Case {
 	}
 	// the last run: everything is produced and applied, then a graceful stop; one more start asks for the final resume point
 	c.Runs = append(c.Runs, Run{Restart: rapid.SampledFrom([]string{"process", "input"}).Draw(t, "lastRestart"), Fault: "none", FeedTo: nu, LingerMs: rapid.SampledFrom([]int{0, 30, 150}).Draw(t, "lastLinger")})
-	if rapid.IntRange(0, 5).Draw(t, "delfail") == 0 {
+	switch rapid.IntRange(0, 7).Draw(t, "delfail") {
+	case 0:
 		c.DelFail = rapid.IntRange(1, 6).Draw(t, "delFailAt")
+	case 1:
+		c.DelFailMask = rapid.Uint16().Draw(t, "delFailMask")
 	}
 	return c
 }
@@ -246,15 +252,16 @@ func build(c Case) *world {
 			}
 		}
 	}
-	if c.DelFail > 0 {
+	if c.DelFail > 0 || c.DelFailMask != 0 {
 		var cnt atomic.Int64
 		for _, n := range wd.tgt.Nodes() {
 			n.FailAt(func(cmd string, args [][]byte) bool {
 				if cmd == "del" && len(args) > 0 && strings.Contains(string(args[0]), ":commit:{") {
-					return cnt.Add(1) == int64(c.DelFail)
+					n := cnt.Add(1)
+					return n == int64(c.DelFail) || (n <= 16 && c.DelFailMask&(1<<uint(n-1)) != 0)
 				}
 				return false
-			}, "ERR injected failure", 1)
+			}, "ERR injected failure", 17)
 		}
 	}
 	wd.w = bsync.NewWorld(wd.tgt)
@@ -678,7 +685,7 @@ func run(c Case) (fs []failure, inconc string, cls map[string]bool, hist any) {
 			// e.g. the coordinator's connection is gone after an (injected) failed journal deletion: the tool gives up the run and
 			// restarts, which the property allows; the run simply ends here
 			cls["replay-ended-by-itself"] = true
-			if ri == len(runs)-2 && retries < 3 {
+			if ri == len(runs)-2 && retries < 20 {
 				// the last complete run has to be complete: the tool restarts after such an error, so do we
 				retries++
 				runs = append(runs[:ri+1], append([]Run{{Restart: "input", Fault: "none", FeedTo: len(c.Units), LingerMs: r.LingerMs}}, runs[ri+1:]...)...)
